@@ -25,7 +25,8 @@ def repo_root() -> pathlib.Path:
 
 
 class Module:
-    def __init__(self, name: str, relpath: str, src: str, extern=None):
+    def __init__(self, name: str, relpath: str, src: str, extern=None,
+                 splice=None):
         self.name = name          # e.g. "fit", "rate.io", "model.core"
         self.relpath = relpath    # e.g. "src/nanite/fit.py"
         self.src = src
@@ -34,8 +35,10 @@ class Module:
             self.tree = self.raw_tree
         else:
             from .normalize import normalize_module
-            self.tree = normalize_module(ast.parse(src, filename=relpath),
-                                         extern or {})
+            tree = ast.parse(src, filename=relpath)
+            if splice:
+                tree = splice(tree)
+            self.tree = normalize_module(tree, extern or {})
         self.funcs: dict[str, ast.AST] = {}
         self.classes: dict[str, ast.ClassDef] = {}
         self.assigns: dict[str, list[ast.AST]] = {}
@@ -150,6 +153,8 @@ class Repo:
                 except SyntaxError:
                     consts[name] = {}
         self._consts = consts
+        self._srcs = srcs
+        self.spliced = set()
         for path in sorted(self.pkg.rglob("*.py")):
             rel = path.relative_to(self.root).as_posix()
             parts = list(path.relative_to(self.pkg).with_suffix("").parts)
@@ -162,10 +167,121 @@ class Repo:
                 src = path.read_text(encoding="utf-8")
             try:
                 self.modules[name] = Module(
-                    name, rel, src, self._extern(name, src, path))
+                    name, rel, src, self._extern(name, src, path),
+                    splice=self._splicer(name, path))
                 self.modules[name].repo = self
             except SyntaxError as e:  # pragma: no cover
                 raise AnchorError(f"{rel} does not parse: {e}")
+        # a private sibling module whose contents were placed into every
+        # module that imports from it is not a unit of its own
+        for name in self.spliced:
+            self.modules.pop(name, None)
+
+    def _splicer(self, name, path):
+        """`from ._private import a, b` (a private sibling module of the
+        package) -> the module's top-level definitions in place of the
+        import, so that helpers and tables that moved to a private module
+        are analysed with the code that uses them"""
+        if os.environ.get("NANITE_SA_NO_NORMALIZE"):
+            return None
+        is_pkg = path.name == "__init__.py"
+        base0 = name.split(".") if name != "__init__" else []
+        if not is_pkg:
+            base0 = base0[:-1]
+        repo = self
+
+        def body_of(tgt, base, seen):
+            try:
+                t = ast.parse(repo._srcs[tgt])
+            except SyntaxError:
+                return None
+            out = []
+            for st in t.body:
+                if isinstance(st, ast.Expr) and isinstance(
+                        st.value, ast.Constant) and isinstance(
+                        st.value.value, str):
+                    continue
+                if isinstance(st, ast.ImportFrom) and st.module == \
+                        "__future__":
+                    continue
+                if isinstance(st, ast.Assign) and any(
+                        isinstance(x, ast.Name) and x.id == "__all__"
+                        for x in st.targets):
+                    continue
+                if isinstance(st, (ast.FunctionDef, ast.ClassDef)):
+                    # defined in a private module: private to the package
+                    st._spliced = True
+                out.extend(expand(st, tgt.split(".")[:-1], seen))
+            return out
+
+        mod_alias = {}
+
+        def expand(st, base, seen):
+            if isinstance(st, ast.ImportFrom) and st.level >= 1 and \
+                    not st.module:
+                # from . import _private [as alias]
+                up = base[:len(base) - (st.level - 1)] if st.level > 1 \
+                    else base
+                keep, out = [], []
+                for a in st.names:
+                    tgt = ".".join(up + [a.name])
+                    if a.name.startswith("_") and not a.name.startswith(
+                            "__") and a.name != "_version" and \
+                            tgt in repo._srcs and tgt != name:
+                        mod_alias[a.asname or a.name] = tgt
+                        repo.spliced.add(tgt)
+                        if tgt not in seen:
+                            seen.add(tgt)
+                            out.extend(body_of(tgt, base, seen) or [])
+                    else:
+                        keep.append(a)
+                if keep:
+                    st.names = keep
+                    out.insert(0, st)
+                return out
+            if not (isinstance(st, ast.ImportFrom) and st.level >= 1
+                    and st.module):
+                return [st]
+            up = base[:len(base) - (st.level - 1)] if st.level > 1 else base
+            tgt = ".".join(up + st.module.split("."))
+            last = tgt.split(".")[-1]
+            if not (last.startswith("_") and not last.startswith("__")
+                    and last != "_version" and tgt in repo._srcs
+                    and tgt != name):
+                return [st]
+            if any(a.name == "*" for a in st.names):
+                return [st]
+            extra = [ast.copy_location(ast.Assign(
+                targets=[ast.Name(id=a.asname, ctx=ast.Store())],
+                value=ast.Name(id=a.name, ctx=ast.Load())), st)
+                for a in st.names if a.asname and a.asname != a.name]
+            repo.spliced.add(tgt)
+            if tgt in seen:
+                return extra
+            seen.add(tgt)
+            body = body_of(tgt, base, seen)
+            if body is None:
+                return [st]
+            return body + extra
+
+        def splice(tree):
+            seen = set()
+            new = []
+            for st in tree.body:
+                new.extend(expand(st, base0, seen))
+            tree.body = new
+            if mod_alias:
+                class _Un(ast.NodeTransformer):
+                    def visit_Attribute(self, node):
+                        self.generic_visit(node)
+                        if isinstance(node.value, ast.Name) and \
+                                node.value.id in mod_alias:
+                            return ast.copy_location(ast.Name(
+                                id=node.attr, ctx=node.ctx), node)
+                        return node
+                tree = _Un().visit(tree)
+            return ast.fix_missing_locations(tree)
+        return splice
 
     def _extern(self, name, src, path):
         """{local name: constant expression} for `from .sibling import X`"""
